@@ -65,139 +65,63 @@ fn shared_context() -> HCtx {
 struct Workload {
     name: &'static str,
     threads: usize,
-    /// body(tid) -> observation; must be deterministic when run alone
-    body: Arc<dyn Fn(usize) -> Obs + Send + Sync>,
+    /// builds the shared objects afresh and returns body(tid) -> observation; a body must be
+    /// deterministic when run alone
+    make: Arc<dyn Fn() -> Arc<dyn Fn(usize) -> Obs + Send + Sync> + Send + Sync>,
     description: String,
 }
 
-fn workloads() -> Vec<Workload> {
-    let ctx = Arc::new(shared_context());
-    let mut out = Vec::new();
-    let mk = |src: &str| Arc::new(build_operator_tree::<DefaultNumericTypes>(src).unwrap_or_else(|e| machinery_error(&format!("C15 source: {e}"))));
+#[derive(Clone)]
+enum Kind {
+    /// all threads evaluate the same tree against the same context
+    SameTree(String),
+    /// thread i evaluates tree i against the same context
+    PerThreadTrees(Vec<String>),
+    /// thread i tokenizes, builds and evaluates source i against the same context
+    StringLevel(Vec<String>),
+    /// all threads evaluate the same tree, each against its own mutable clone of the shared context
+    MutableClones(String),
+    /// thread 0 formats, clones and iterates the shared tree and context while the others evaluate
+    FormatWhileEvaluating(String),
+}
 
-    // W1: the same tree and the same context
-    for (name, src, n) in [
-        ("same-tree-same-context-2", "y(1) + y(a) * y(3)", 2usize),
-        ("same-tree-same-context-3", "y(1) + y(a)", 3),
-        ("nested-calls-2", "z(y(1)) + len(b + y(\"t\"))", 2),
-        ("failing-evaluation-2", "y(1) + (y(2) , y(a) / 0) ; y(4)", 2),
-    ] {
-        let tree = mk(src);
-        let c = ctx.clone();
-        out.push(Workload {
-            name,
-            threads: n,
-            body: Arc::new(move |_tid| {
+fn tree_of(src: &str) -> Arc<ENode> {
+    Arc::new(build_operator_tree::<DefaultNumericTypes>(src).unwrap_or_else(|e| machinery_error(&format!("C15 source: {e}"))))
+}
+
+/// Builds fresh shared objects (context, trees) and returns the per-thread body.
+fn make_body(kind: &Kind) -> Arc<dyn Fn(usize) -> Obs + Send + Sync> {
+    let c = Arc::new(shared_context());
+    match kind.clone() {
+        Kind::SameTree(src) => {
+            let tree = tree_of(&src);
+            Arc::new(move |_tid| {
                 let r = tree.eval_with_context(&*c);
                 (res_key(&r), take_calls())
-            }),
-            description: format!("{} threads evaluate the same Arc<Node> `{}` against the same Arc<HashMapContext>", n, src),
-        });
-    }
-    // W1b: deep trees (each thread holds many evaluation frames at its yield points) and many threads
-    {
-        let depth = 100;
-        let src = format!("{}y(1){}", "-(".repeat(depth), ")".repeat(depth));
-        let tree = mk(&src);
-        let c = ctx.clone();
-        out.push(Workload {
-            name: "deep-nesting-2",
-            threads: 2,
-            body: Arc::new(move |_tid| {
-                let r = tree.eval_with_context(&*c);
-                (res_key(&r), take_calls())
-            }),
-            description: format!("2 threads evaluate the same tree of nesting depth {} (`-(` x {} around y(1)) against the same context", depth, depth),
-        });
-        let src3 = format!("{}y(1) + y(2){}", "(0+".repeat(50), ")".repeat(50));
-        let tree3 = mk(&src3);
-        let c = ctx.clone();
-        out.push(Workload {
-            name: "deep-nesting-3",
-            threads: 3,
-            body: Arc::new(move |_tid| {
-                let r = tree3.eval_with_context(&*c);
-                (res_key(&r), take_calls())
-            }),
-            description: "3 threads evaluate the same tree of nesting depth 50 with two calls at the bottom".into(),
-        });
-        let tree8 = mk("(y(1), (y(a), y(b)))");
-        let c = ctx.clone();
-        out.push(Workload {
-            name: "many-threads-5",
-            threads: 5,
-            body: Arc::new(move |_tid| {
-                let r = tree8.eval_with_context(&*c);
-                (res_key(&r), take_calls())
-            }),
-            description: "5 threads evaluate the same nested-tuple tree against the same context (explored with preemption bound <= 1)".into(),
-        });
-    }
-    // W2: different trees, same context
-    {
-        let trees = [mk("y(1) + y(2)"), mk("y(a) * z(3)"), mk("(y(b), y(true))")];
-        let c = ctx.clone();
-        out.push(Workload {
-            name: "different-trees-same-context-3",
-            threads: 3,
-            body: Arc::new(move |tid| {
+            })
+        },
+        Kind::PerThreadTrees(srcs) => {
+            let trees: Vec<Arc<ENode>> = srcs.iter().map(|s| tree_of(s)).collect();
+            Arc::new(move |tid| {
                 let r = trees[tid].eval_with_context(&*c);
                 (res_key(&r), take_calls())
-            }),
-            description: "3 threads evaluate different trees against the same context".into(),
-        });
-    }
-    // W2b: one evaluation fails while the other succeeds (and a third one reads variables only)
-    {
-        let trees = [mk("y(1) + y(2) / (y(a) - a)"), mk("y(a) * z(3) + y(a)"), mk("a + len(b) + y(0)")];
-        let c = ctx.clone();
-        out.push(Workload {
-            name: "one-fails-others-succeed-3",
-            threads: 3,
-            body: Arc::new(move |tid| {
-                let r = trees[tid].eval_with_context(&*c);
-                (res_key(&r), take_calls())
-            }),
-            description: "3 threads, same context: thread 0 fails with a division by zero while threads 1 and 2 succeed".into(),
-        });
-    }
-    // W3: string-level evaluation (tokenizing and tree building inside the threads)
-    {
-        let c = ctx.clone();
-        out.push(Workload {
-            name: "string-level-2",
-            threads: 2,
-            body: Arc::new(move |tid| {
-                let src = if tid == 0 { "y(1) + y(0x1f) + y(1e-3)" } else { "y(\"a\\\\b\") + y(b) ; y(a)" };
-                let r = evalexpr::eval_with_context(src, &*c);
-                (res_key(&r), take_calls())
-            }),
-            description: "2 threads tokenize, build and evaluate strings against the same context".into(),
-        });
-    }
-    // W4: shared tree, per-thread mutable clones of the shared context
-    {
-        let tree = mk("x = y(1); x += y(a); a += y(x); (x, a)");
-        let c = ctx.clone();
-        out.push(Workload {
-            name: "shared-tree-mutable-clones-2",
-            threads: 2,
-            body: Arc::new(move |_tid| {
+            })
+        },
+        Kind::StringLevel(srcs) => Arc::new(move |tid| {
+            let r = evalexpr::eval_with_context(&srcs[tid], &*c);
+            (res_key(&r), take_calls())
+        }),
+        Kind::MutableClones(src) => {
+            let tree = tree_of(&src);
+            Arc::new(move |_tid| {
                 let mut mine = (*c).clone();
                 let r = tree.eval_with_context_mut(&mut mine);
                 (format!("{} / {:?}", res_key(&r), observe_vars(&mine)), take_calls())
-            }),
-            description: "2 threads evaluate the same tree with assignments, each against its own clone of the shared context".into(),
-        });
-    }
-    // W5: one thread clones / formats / iterates the shared objects while the others evaluate
-    {
-        let tree = mk("y(1) + y(a) * y(3)");
-        let c = ctx.clone();
-        out.push(Workload {
-            name: "clone-and-format-while-evaluating-3",
-            threads: 3,
-            body: Arc::new(move |tid| {
+            })
+        },
+        Kind::FormatWhileEvaluating(src) => {
+            let tree = tree_of(&src);
+            Arc::new(move |tid| {
                 if tid == 0 {
                     let mut parts = Vec::new();
                     parts.push(format!("{}", tree));
@@ -212,10 +136,79 @@ fn workloads() -> Vec<Workload> {
                     let r = tree.eval_with_context(&*c);
                     (res_key(&r), take_calls())
                 }
-            }),
-            description: "1 thread formats, clones and iterates the shared tree and context while 2 threads evaluate".into(),
-        });
+            })
+        },
     }
+}
+
+fn workloads() -> Vec<Workload> {
+    let mut out = Vec::new();
+    let mut add = |name: &'static str, threads: usize, kind: Kind, description: String| {
+        out.push(Workload {
+            name,
+            threads,
+            make: Arc::new(move || make_body(&kind)),
+            description,
+        });
+    };
+    for (name, src, n) in [
+        ("same-tree-same-context-2", "y(1) + y(a) * y(3)", 2usize),
+        ("same-tree-same-context-3", "y(1) + y(a)", 3),
+        ("nested-calls-2", "z(y(1)) + len(b + y(\"t\"))", 2),
+        ("failing-evaluation-2", "y(1) + (y(2) , y(a) / 0) ; y(4)", 2),
+        ("alternating-functions-2", "y(1) + z(2) + y(3) + z(4)", 2),
+    ] {
+        add(name, n, Kind::SameTree(src.into()), format!("{} threads evaluate the same Arc<Node> `{}` against the same Arc<HashMapContext>", n, src));
+    }
+    let depth = 100;
+    add(
+        "deep-nesting-2",
+        2,
+        Kind::SameTree(format!("{}y(1){}", "-(".repeat(depth), ")".repeat(depth))),
+        format!("2 threads evaluate the same tree of nesting depth {} (`-(` x {} around y(1)) against the same context", depth, depth),
+    );
+    add(
+        "deep-nesting-3",
+        3,
+        Kind::SameTree(format!("{}y(1) + y(2){}", "(0+".repeat(50), ")".repeat(50))),
+        "3 threads evaluate the same tree of nesting depth 50 with two calls at the bottom".into(),
+    );
+    add(
+        "many-threads-5",
+        5,
+        Kind::SameTree("(y(1), (y(a), y(b)))".into()),
+        "5 threads evaluate the same nested-tuple tree against the same context (explored with preemption bound <= 1)".into(),
+    );
+    add(
+        "different-trees-same-context-3",
+        3,
+        Kind::PerThreadTrees(vec!["y(1) + y(2)".into(), "y(a) * z(3)".into(), "(y(b), y(true))".into()]),
+        "3 threads evaluate different trees against the same context".into(),
+    );
+    add(
+        "one-fails-others-succeed-3",
+        3,
+        Kind::PerThreadTrees(vec!["y(1) + y(2) / (y(a) - a)".into(), "y(a) * z(3) + y(a)".into(), "a + len(b) + y(0)".into()]),
+        "3 threads, same context: thread 0 fails with a division by zero while threads 1 and 2 succeed".into(),
+    );
+    add(
+        "string-level-2",
+        2,
+        Kind::StringLevel(vec!["y(1) + y(0x1f) + y(1e-3)".into(), "y(\"a\\\\b\") + y(b) ; y(a)".into()]),
+        "2 threads tokenize, build and evaluate strings against the same context".into(),
+    );
+    add(
+        "shared-tree-mutable-clones-2",
+        2,
+        Kind::MutableClones("x = y(1); x += y(a); a += y(x); (x, a)".into()),
+        "2 threads evaluate the same tree with assignments, each against its own clone of the shared context".into(),
+    );
+    add(
+        "clone-and-format-while-evaluating-3",
+        3,
+        Kind::FormatWhileEvaluating("y(1) + y(a) * y(3)".into()),
+        "1 thread formats, clones and iterates the shared tree and context while 2 threads evaluate".into(),
+    );
     out
 }
 
@@ -251,20 +244,27 @@ fn sendsync_probe(st: &mut Stats) -> String {
 }
 
 fn explore_workload(w: &Workload, bound: Option<usize>, cap: u64, st: &mut Stats) -> J {
-    // sequential reference: each body alone, on this thread (yield points are no-ops here)
-    let seq: Vec<Obs> = (0..w.threads).map(|t| (w.body)(t)).collect();
-    let seq2: Vec<Obs> = (0..w.threads).map(|t| (w.body)(t)).collect();
-    if seq != seq2 {
+    // sequential reference: each body alone, on this thread (yield points are no-ops here), on freshly
+    // built shared objects; twice, to make sure the workload itself is deterministic
+    let seq_run = || -> Vec<Obs> {
+        let body = (w.make)();
+        (0..w.threads).map(|t| body(t)).collect()
+    };
+    let seq: Vec<Obs> = seq_run();
+    if seq != seq_run() {
         machinery_error(&format!("workload {} is not deterministic when run sequentially", w.name));
     }
-    let body = w.body.clone();
-    let run_body: Arc<dyn Fn(usize, &Arc<sched::Sched>) -> Obs + Send + Sync> = Arc::new(move |tid, _s| {
-        take_calls();
-        body(tid)
-    });
+    let make = w.make.clone();
+    let make_run_body = move || -> Arc<dyn Fn(usize, &Arc<sched::Sched>) -> Obs + Send + Sync> {
+        let body = make();
+        Arc::new(move |tid, _s| {
+            take_calls();
+            body(tid)
+        })
+    };
     // replay determinism: schedule 0 twice
-    let a = sched::run_once(w.threads, &[], run_body.clone());
-    let b = sched::run_once(w.threads, &[], run_body.clone());
+    let a = sched::run_once(w.threads, &[], make_run_body());
+    let b = sched::run_once(w.threads, &[], make_run_body());
     if a.choices != b.choices || a.events != b.events || a.results != b.results {
         machinery_error(&format!("workload {}: replaying the default schedule gave different observations", w.name));
     }
@@ -299,7 +299,7 @@ fn explore_workload(w: &Workload, bound: Option<usize>, cap: u64, st: &mut Stats
             });
         }
     };
-    let (count, capped) = sched::explore(w.threads, bound, cap, run_body, &mut visit);
+    let (count, capped) = sched::explore(w.threads, bound, cap, &make_run_body, &mut visit);
     st.evaluations += count;
     st.transitions += count;
     st.add(&format!("schedules/{}", w.name), count);
@@ -387,8 +387,11 @@ pub fn replay(case: &J) -> i32 {
     let ws = workloads();
     let w = ws.iter().find(|w| w.name == name).unwrap_or_else(|| machinery_error("C15 replay: unknown workload"));
     let prefix: Vec<usize> = input["schedule"].as_array().map(|a| a.iter().map(|x| x.as_u64().unwrap_or(0) as usize).collect()).unwrap_or_default();
-    let seq: Vec<Obs> = (0..w.threads).map(|t| (w.body)(t)).collect();
-    let body = w.body.clone();
+    let seq: Vec<Obs> = {
+        let body = (w.make)();
+        (0..w.threads).map(|t| body(t)).collect()
+    };
+    let body = (w.make)();
     let run_body: Arc<dyn Fn(usize, &Arc<sched::Sched>) -> Obs + Send + Sync> = Arc::new(move |tid, _s| {
         take_calls();
         body(tid)
